@@ -690,6 +690,10 @@ class _EvalBuilder(_Builder):
             name = f[1]
             if name == "bool" and len(args) == 1 and args[0][0] == "c":
                 return C(bool(args[0][1]))
+            if name == "isinstance" and len(args) == 2 and args[1][0] == "n":
+                shape = {"list": "list", "tuple": "tuple", "set": "set", "dictd": "dict"}.get(args[0][0])
+                if shape is not None and args[1][1] in ("list", "tuple", "set", "dict"):
+                    return C(shape == args[1][1])
             if name == "len" and len(args) == 1 and args[0][0] == "c":
                 try:
                     return C(len(args[0][1]))
